@@ -93,13 +93,18 @@ def run(seed_id, props):
 
 def table(ids, jobs=3):
     """run every seeded change against its property's check (scratch copies, `jobs` at a time) and write seeded/CATCHES.md"""
-    import concurrent.futures as cf, io, contextlib
+    import concurrent.futures as cf
 
     def one(i):
-        buf = io.StringIO()
-        with contextlib.redirect_stdout(buf):
-            res = run(i, [])
-        return i, res, buf.getvalue()
+        # one subprocess per seeded change (stdout of concurrent runs must not mix)
+        p = subprocess.run([sys.executable, os.path.abspath(__file__), "run", i], capture_output=True, text=True, timeout=7200)
+        out = p.stdout
+        head = next((l for l in out.splitlines() if " vs " in l), "")
+        rc = None
+        if "exit=" in head:
+            rc = int(head.split("exit=")[1].split()[0])
+        meta = json.load(open(os.path.join(VERIF, "seeded", i, "meta.json")))
+        return i, {meta["property"]: rc}, out
     rows = []
     with cf.ThreadPoolExecutor(jobs) as ex:
         for i, res, out in ex.map(one, ids):
